@@ -24,7 +24,10 @@ Step == /\ l <= Len(Trace) /\ l' = l + 1
         /\ LET ev == Trace[l] IN
            IF ev.ev = "Scn" THEN cur' = ev /\ rej' = rej
            ELSE /\ cur' = cur
-                /\ rej' = rej \cup (IF Observed(ev) \notin Allowed(cur) THEN {<<cur.sc, Observed(ev)>>} ELSE {})
+                \* a CompressedCertificate message above the general handshake message limit (64 KiB) is outside the
+                \* statement ("up to the handshake size limit"): the client may refuse it
+                /\ rej' = rej \cup (IF Observed(ev) \notin Allowed(cur) /\ ~(ev.sent_len > 65540 /\ Observed(ev) = "abort")
+                                    THEN {<<cur.sc, Observed(ev)>>} ELSE {})
                               \* an accepted certificate is the one the server compressed, and data flows
                               \cup (IF ev.cok /\ (ev.peer_certs # ev.chain_sent \/ ~ev.echo \/ ~ev.sok) THEN {<<cur.sc, "accepted-but-broken">>} ELSE {})
                               \cup (IF ev.cpanic # "" THEN {<<cur.sc, "panic">>} ELSE {})
